@@ -99,6 +99,7 @@ impl<'a> Adv<'a> {
                 }
                 let h = *self.rng.pick(&cand);
                 hashes[i] = chain.blocks[h as usize].hash();
+                at2 = h;
             }
             "hashes-swapped" => {
                 if n < 2 {
@@ -141,6 +142,8 @@ impl<'a> Adv<'a> {
                 }
                 filters.remove(0);
                 hashes.remove(0);
+                // every position of the batch is affected
+                at2 = start + n as u64;
             }
             _ => return None,
         }
@@ -263,11 +266,27 @@ fn scenario(seed: u64, k: u64, out: &Out) {
         let got_cells = refidx::rpc_cells(&rpc, &s, st, 50);
         let key = (st, refidx::script_key(&s));
         let mut missing: Vec<u64> = vec![];
+        // heights whose only missing entries are inputs: (height, creating blocks of the spent outputs)
+        let mut input_only: std::collections::HashMap<u64, Vec<u64>> = std::collections::HashMap::new();
+        let mut has_output_missing: HashSet<u64> = HashSet::new();
         if let Some(truth) = idx.history.get(&key) {
             for t in truth.iter().filter(|t| t.block >= 1 && t.block <= n) {
                 out.eval(1);
                 if !got_txs.contains(t) {
                     missing.push(t.block);
+                    let mut prev = None;
+                    if t.io_type == 0 {
+                        let tx = &chain.blocks[t.block as usize].transactions()[t.tx_index as usize];
+                        if let Some(op) = tx.input_pts_iter().nth(t.io_index as usize) {
+                            prev = chain.txs.get(&op.tx_hash()).map(|(_, b, _)| *b);
+                        }
+                    }
+                    match prev {
+                        Some(b) => input_only.entry(t.block).or_default().push(b),
+                        None => {
+                            has_output_missing.insert(t.block);
+                        }
+                    }
                 }
             }
         }
@@ -287,7 +306,24 @@ fn scenario(seed: u64, k: u64, out: &Out) {
             violated = true;
             // attribute: the last adversarial operator applied at (or covering) the first skipped height
             let h = missing[0];
-            let blame = adv.applied.iter().rev().find(|(_, at, at2, _)| *at == h || *at2 == h).map(|(op, _, _, _)| op.clone()).unwrap_or_else(|| "unattributed".into());
+            let direct = adv.applied.iter().rev().find(|(op, at, at2, _)| if op == "shift-left-keep-start" { h + 8 >= *at && h <= *at2 } else { *at == h || *at2 == h }).map(|(op, _, _, _)| op.clone());
+            // blocks indexed out of order by a hash substitution: a later spend of a cell of such a block cannot be attributed
+            let blame = match direct {
+                Some(op) => op,
+                None => {
+                    let tainted = |b: u64| adv.applied.iter().rev().find(|(op, at, at2, _)| op.starts_with("hash") && (*at == b || *at2 == b)).map(|(op, _, _, _)| op.clone());
+                    let mut r = "unattributed".to_string();
+                    if !has_output_missing.contains(&h) {
+                        if let Some(prevs) = input_only.get(&h) {
+                            let ops: Vec<Option<String>> = prevs.iter().map(|b| tainted(*b)).collect();
+                            if !ops.is_empty() && ops.iter().all(|o| o.is_some()) {
+                                r = format!("{}|later-spend", ops[0].clone().unwrap());
+                            }
+                        }
+                    }
+                    r
+                }
+            };
             out.violation(
                 "C06.R1",
                 &format!("C06|script-activity-skipped|{}", blame),
